@@ -593,6 +593,32 @@ def _expression_helper(fn) -> Optional[ast.AST]:
         if any(isinstance(n, (ast.NamedExpr, ast.Lambda)) for n in ast.walk(body[0].value)):
             return None
         return body[0].value
+    # straight-line temporaries followed by `return <expression>`: the temporaries read through (each bound once by a plain
+    # assignment, only read afterwards, its value free of calls that could draw random numbers or mutate)
+    if len(body) >= 2 and isinstance(body[-1], ast.Return) and body[-1].value is not None and all(
+            isinstance(x, ast.Assign) and len(x.targets) == 1 and isinstance(x.targets[0], ast.Name) for x in body[:-1]):
+        names = [x.targets[0].id for x in body[:-1]]
+        params = {a.arg for a in fn.args.args + fn.args.kwonlyargs}
+        if len(set(names)) != len(names) or set(names) & params:
+            return None
+        expr = copy.deepcopy(body[-1].value)
+        for x in reversed(body[:-1]):
+            nm, val = x.targets[0].id, x.value
+            if any(isinstance(n, (ast.NamedExpr, ast.Lambda, ast.Yield, ast.Await)) for n in ast.walk(val)):
+                return None
+            if any(isinstance(n, ast.Call) and any(h in ast.unparse(n.func) for h in ("random", "shuffle", "choice", "sample", "append", "extend", "pop", "update", "add")) for n in ast.walk(val)):
+                return None
+            # capture: a comprehension of the remaining expression must not bind a name the value reads
+            vfree = {n.id for n in ast.walk(val) if isinstance(n, ast.Name)}
+            if _bound_in(expr) & vfree:
+                return None
+            expr = _Sub({nm: val}, {}).visit(expr)
+        if any(isinstance(n, ast.Name) and n.id in names for n in ast.walk(expr)):
+            return None   # a temporary defined in terms of a later one, or read inside a comprehension that shadows it
+        # (earlier temporaries may be read by later ones: substituting from the last to the first resolves the chain)
+        if any(isinstance(n, (ast.NamedExpr, ast.Lambda)) for n in ast.walk(expr)):
+            return None
+        return ast.fix_missing_locations(expr)
     return None
 
 
